@@ -19,13 +19,16 @@ use qrlew::{
 use serde_json::{json, Value as J};
 use std::{cell::RefCell, sync::Arc};
 
+const PROTECTED_NAME: &str = "protected_tbl";
+
 pub fn base_relations() -> Hierarchy<Arc<Relation>> {
     let schema = |_: ()| {
         Schema::empty()
             .with(("id", DataType::integer_interval(0, 10)))
             .with(("x", DataType::float_interval(0., 1.)))
     };
-    let protected: Relation = Relation::table().name("protected").schema(schema(())).size(10).build();
+    // the protected table's relation name differs from the key it is registered (and named in the privacy unit) under
+    let protected: Relation = Relation::table().name(PROTECTED_NAME).path(["protected"]).schema(schema(())).size(10).build();
     let public: Relation = Relation::table().name("public").schema(schema(())).size(10).build();
     Hierarchy::from([(vec!["protected"], Arc::new(protected)), (vec!["public"], Arc::new(public))])
 }
@@ -378,7 +381,7 @@ fn run_case(case: &J) -> J {
                     Ok(rw) => {
                         dj["sql"] = json!(normalised_sql(rw.relation()));
                         dj["event"] = json!(format!("{}", rw.dp_event()));
-                        dj["exposure"] = json!(exposure(rw.relation(), &logging.gates.borrow(), &["protected"]));
+                        dj["exposure"] = json!(exposure(rw.relation(), &logging.gates.borrow(), &[PROTECTED_NAME]));
                         dj["gates"] = json!(logging.gates.borrow().len());
                         dj["steps"] = J::Array(logging.steps.borrow().clone());
                     }
@@ -450,7 +453,7 @@ fn run_case(case: &J) -> J {
             obs["sql"] = json!(normalised_sql(rw.relation()));
             obs["event"] = json!(format!("{}", rw.dp_event()));
             obs["root_has_pu"] = json!(rw.relation().schema().iter().any(|f| f.name() == "_PRIVACY_UNIT_"));
-            obs["result_exposure"] = json!(guarded(|| result_exposure(rw.relation(), &["protected"])).unwrap_or("Raw"));
+            obs["result_exposure"] = json!(guarded(|| result_exposure(rw.relation(), &[PROTECTED_NAME])).unwrap_or("Raw"));
         }
         Ok(Err(e)) => {
             let msg = format!("{e}");
